@@ -414,3 +414,40 @@ SIGN_WITNESSES = [
     (["B", "S", "F"], _chain(_o(0, 1), _o(1)), _chain(_o(2), _o(0))),             # (a† sigma_-) * (f a)
     (["L", "S", "F", "F"], _chain(_o(1), _o(0)), _chain(_o(3, 1), _o(2))),        # (sigma_- l) * (g† f)
 ]
+
+
+def rand_ladder_pair(rng):
+    """(modes, left, right): (m†^k f(N_m)) * m^p  or  (m^k f(N_m)) * m†^p  (or f on the other side) for a ladder mode m,
+    k in 2..4, 1 <= p <= k+1, f a non-constant polynomial in N_m; optionally a boson mode mixed in"""
+    modes = ["L"] if rng.random() < 0.6 else sorted([rng.choice("BL"), "L"], key=KIND_ORDER.index)
+    i = max(j for j, m in enumerate(modes) if m == "L")
+    k = rng.randint(2, 4)
+    p = rng.randint(1, k + 1)
+    dag = rng.randint(0, 1)
+    f = ["num", i] if rng.random() < 0.4 else ["add", ["num", i], rand_const(rng, complex_ok=False)]
+    if rng.random() < 0.3:
+        f = ["mul", f, ["add", ["num", i], rand_const(rng, complex_ok=False)]]
+    opk = ["pow", ["op", i, dag], k]
+    left = ["mul", opk, f] if rng.random() < 0.6 else ["mul", f, opk]
+    right = ["pow", ["op", i, 1 - dag], p] if p > 1 else ["op", i, 1 - dag]
+    if len(modes) > 1 and rng.random() < 0.7:
+        j = 1 - i
+        o2 = ["op", j, rng.randint(0, 1)]
+        left = ["mul", left, o2] if rng.random() < 0.5 else ["mul", o2, left]
+        if rng.random() < 0.5:
+            right = ["mul", right, ["op", j, rng.randint(0, 1)]]
+    return modes, left, right
+
+
+def _lp(i, dag, k):
+    return ["pow", ["op", i, dag], k] if k > 1 else ["op", i, dag]
+
+
+LADDER_WITNESSES = [
+    (["L"], ["mul", _lp(0, 1, 2), ["num", 0]], _lp(0, 0, 1)),                                        # (m†^2 N_m) * m
+    (["L"], ["mul", _lp(0, 1, 3), ["add", ["num", 0], ["const", "1", "0"]]], _lp(0, 0, 2)),          # (m†^3 (N_m+1)) * m^2
+    (["L"], ["mul", _lp(0, 1, 2), ["num", 0]], _lp(0, 0, 3)),                                        # (m†^2 N_m) * m^3
+    (["L"], ["mul", ["num", 0], _lp(0, 0, 3)], _lp(0, 1, 1)),                                        # (N_m m^3) * m†
+    (["L"], ["mul", _lp(0, 0, 2), ["mul", ["num", 0], ["num", 0]]], _lp(0, 1, 3)),                   # (m^2 N_m^2) * m†^3
+    (["B", "L"], ["mul", ["op", 0, 1], ["mul", _lp(1, 1, 2), ["num", 1]]], ["mul", _lp(1, 0, 1), ["op", 0, 0]]),   # (a† m†^2 N_m) * (m a)
+]
